@@ -562,6 +562,16 @@ def long_inputs_suite(world, pool, tier, rng):
         world.load_doc(slot, json.dumps(j).encode(), "strn", tag="load")
         metas.append((len(world.ops), {"kind": "item", "doc": json.dumps(j)[:60] + "...", "longest": max(len(str(x)) for x in j.values())}))
         world.op("jwks %d item 0" % slot, tag="item")
+    # keys that share a key id, in one document and across two loads of the same document: whatever the set makes of them,
+    # an item is flagged with a message or usable
+    okey = pool.keys["oct32"]
+    dup = json.dumps({"keys": [okey.jwk(extra={"kid": "same"}), okey.jwk(extra={"kid": "same"}), okey.jwk(extra={"kid": "other"})]}).encode()
+    world.op("jwks %d del" % slot, cmp=False, tag="cfg")
+    for rnd in range(2):
+        world.load_doc(slot, dup, "strn", tag="load")
+        for i in range(3 * (rnd + 1)):
+            metas.append((len(world.ops), {"kind": "item", "doc": "keys sharing a key id, load %d" % (rnd + 1), "longest": 5}))
+            world.op("jwks %d item %d" % (slot, i), tag="item")
     return metas
 
 
@@ -2721,6 +2731,12 @@ def providers_suite(world, pool, tier, rng):
                         metas.append((len(world.ops), {"kind": "xverify", "key": name, "alg": alg, "loaded": load_under.decode(),
                                                        "gen": gen_under.decode(), "ver": ver_under.decode()}))
                         world.op("ck 0 verify @last", tag="verify")
+                        # ... and with the item that holds the private half (a checker may be given either)
+                        world.op("ck 1 new", tag="cfg")
+                        world.op("ck 1 setkey %d %d %d" % ((K.ALG_ORD[alg],) + priv), tag="cfg")
+                        metas.append((len(world.ops), {"kind": "xverify", "key": name + " (private item)", "alg": alg, "loaded": load_under.decode(),
+                                                       "gen": gen_under.decode(), "ver": ver_under.decode()}))
+                        world.op("ck 1 verify @last", tag="verify")
                         world.op("prov name " + hx(gen_under), tag="cfg")
     world.op("prov name " + hx(b"openssl"), tag="cfg")
     return metas
@@ -2872,8 +2888,19 @@ def header_history_suite(world, pool, tier, rng):
                 # a foreign byte or an impossible length must be refused; what the longer text decodes to otherwise (the
                 # document read up to a NUL, for one) is the model's business
                 probes.append(("first header's text with %r appended" % junk, m1 + b"." + sign(m1), None if py_lenient_b64(hs) is not None else False, False))
+            # whole 4-character groups that hold the complete document (padded with blanks), then a last, partial group
+            # with a foreign byte in it: a decoder that treats the two parts separately must not lose the refusal
+            hpad = h0 + b" " * (-len(h0) % 3)
+            for tail in (b"A!", b"!A", b"AA!", b"A!A", b"!AA", b"!!", b"A\x80", b"A A"):
+                hs = b64(hpad) + tail
+                m1 = hs + b"." + payload
+                probes.append(("whole groups holding the document, then the partial group %r" % tail, m1 + b"." + sign(m1), False, False))
+            ppad = b'{"sub":"hh","exp":5000}' + b" "
+            for tail in (b"A!", b"!AA", b"A\x80"):
+                m1 = b64(h0) + b"." + b64(ppad) + tail
+                probes.append(("payload: whole groups, then the partial group %r" % tail, m1 + b"." + sign(m1), False, False))
             if not thorough:
-                probes = probes[:len(others) + 1][::1 + ci % 2] + rng.sample(probes[len(others) + 1:], 3)
+                probes = probes[:len(others) + 1][::1 + ci % 2] + rng.sample(probes[len(others) + 1:], 4)
             for pi, (pwhat, t1, may, must) in enumerate(probes):
                 two = (ci + pi) % 3 == 0          # the second token goes to another checker of the same thread
                 obs = (ci + pi) % 2 == 0
